@@ -13,25 +13,34 @@ open Dl
 variable (H : Bytes → Bytes)
 
 /-- For every script of server behaviour, every `.part` state (absent, valid prefix, garbage, too
-    long), every object size and every intact prior content of the final path:
+    long), every object size and EVERY prior content of the final path (absent, intact, or a corrupt
+    file of any length — the same length included):
     success ⇒ the final file hashes to the oid;  failure ⇒ the final path is unchanged. -/
-theorem basic_download_spec (oid : Bytes) (size : Nat) (fs : Files) (script : List Resp)
-    (hfin : ∀ c, fs.final = some c → H c = oid) :
+theorem basic_download_spec (oid : Bytes) (size : Nat) (fs : Files) (script : List Resp) :
     ((doTransfer H oid size fs script).1 = .ok →
         ∃ c, (doTransfer H oid size fs script).2.final = some c ∧ H c = oid) ∧
     ((doTransfer H oid size fs script).1 ≠ .ok →
         (doTransfer H oid size fs script).2.final = fs.final) :=
-  doTransfer_spec H oid size fs script hfin
+  doTransfer_spec H oid size fs script
 
 theorem basic_success_hash (oid : Bytes) (size : Nat) (fs : Files) (script : List Resp)
-    (hfin : ∀ c, fs.final = some c → H c = oid) (hok : (doTransfer H oid size fs script).1 = .ok) :
+    (hok : (doTransfer H oid size fs script).1 = .ok) :
     ∃ c, (doTransfer H oid size fs script).2.final = some c ∧ H c = oid :=
-  (doTransfer_spec H oid size fs script hfin).1 hok
+  (doTransfer_spec H oid size fs script).1 hok
 
 theorem basic_failure_no_final_change (oid : Bytes) (size : Nat) (fs : Files) (script : List Resp)
-    (hfin : ∀ c, fs.final = some c → H c = oid) (hf : (doTransfer H oid size fs script).1 ≠ .ok) :
+    (hf : (doTransfer H oid size fs script).1 ≠ .ok) :
     (doTransfer H oid size fs script).2.final = fs.final :=
-  (doTransfer_spec H oid size fs script hfin).2 hf
+  (doTransfer_spec H oid size fs script).2 hf
+
+/-- a corrupt file of the right length sitting at the final path is no success: the adapter never
+    answers from what is already there, a success always carries freshly verified bytes -/
+theorem success_replaces_corrupt_final (oid : Bytes) (size : Nat) (part : Option Bytes) (bad : Bytes)
+    (script : List Resp) (hbad : H bad ≠ oid)
+    (hok : (doTransfer H oid size ⟨part, some bad⟩ script).1 = .ok) :
+    (doTransfer H oid size ⟨part, some bad⟩ script).2.final ≠ some bad := by
+  obtain ⟨c, hc, hh⟩ := (doTransfer_spec H oid size ⟨part, some bad⟩ script).1 hok
+  rw [hc]; intro h; cases h; exact hbad hh
 
 /-- the invariant that makes it work: at the comparison, what was hashed is what is in the file -/
 theorem hasher_tracks_file (oid : Bytes) (t : Tmp) (r : Resp) (final : Option Bytes)
@@ -53,7 +62,7 @@ theorem attempts_intact (oid : Bytes) (size : Nat) (scripts : List (List Resp)) 
     intro fs hfin
     apply ih
     intro c hc
-    have hs := doTransfer_spec H oid size fs sc hfin
+    have hs := doTransfer_spec H oid size fs sc
     by_cases hok : (doTransfer H oid size fs sc).1 = .ok
     · obtain ⟨c', h1, h2⟩ := hs.1 hok
       rw [h1] at hc; cases hc; exact h2
